@@ -66,9 +66,9 @@ def run(ck, replay=None):
         raise common.Infra('more than half of the behaviours could not be aligned with the code: %s' % deviations)
     nt = 300 if quick else 3000
     validated = 0
-    for label, flags in (('types', ['-types']), ('typesfc', ['-types', '-forceclose'])):
+    for label, flags, cnt in (('types', ['-types'], nt), ('typesfc', ['-types', '-forceclose'], nt), ('storm', ['-types', '-storm'], nt * 10)):
         for k in range(1 if quick else 4):
-            r, tr, nlines = streamlib.drive_and_validate(ck, ck.seed * 131 + k, nt, flags, 64, '%s%d' % (label, k))
+            r, tr, nlines = streamlib.drive_and_validate(ck, ck.seed * 131 + k, cnt, flags, 64, '%s%d' % (label, k))
             ck.add_tlc(r)
             if r.violated:
                 line, seg = streamlib.rejected_trace(r, tr)
@@ -76,8 +76,8 @@ def run(ck, replay=None):
                              'recorded execution of streams.Stdin is not a behaviour of Stream.tla (%s, line %s)' % (r.violated, line),
                              {'mode': label, 'tlc': r.violated, 'segment': seg})
             else:
-                validated += nt
-                ck.cov['evaluations'] += nt
+                validated += cnt
+                ck.cov['evaluations'] += cnt
                 if k == 0:
                     ck.sample({'kind': 'validated trace prefix (%s)' % label, 'events': common.read_ndjson(tr)[:25]})
     ck.cov['traces_validated_against_impl'] = ok + validated
